@@ -12,8 +12,11 @@
    3. an unknown tiebreak name is a ValueError exactly when the tiebreak is consulted: STV round,
       first stage of TopTwo / Alaska, PluralityVeto's veto loop (one-shot rules:
       Properties/C05_tiebreaks.v [c05_invalid_tiebreak]).
-   4. non-integer weights and the random transfer: NOT checked up front; the check is made on a
-      winner's pile at the moment it is transferred. *)
+   4. non-integer weights and the random transfer: checked UP FRONT by STV's constructor (since the
+      fix "random transfer refuses non-integer weights in __init__"): TypeError for every validated
+      profile with a non-integral weight, whatever m, the quota and the script; the older lazy
+      check, made on a winner's pile at the moment it is transferred, is still in the transfer
+      function (step-level theorems below) but no run reaches it any more. *)
 From VK Require Import Base Core STV Pairwise Rules PV Election.
 From VK.Spec Require Import ScoreSpec EditSpec STVSpec PairwiseSpec RunSpec UpfrontSpec.
 From VK.Proofs Require Import STV_final C20_more.
@@ -52,6 +55,8 @@ Notation run_pv := (run_pv cand ceqb).
 Notation upfront := (upfront cand).
 Notation pv_upfront := (pv_upfront cand).
 Notation round0 := (round0 cand ceqb).
+Notation stv_validate := (stv_validate cand).
+Notation ranking_validate := (ranking_validate cand).
 
 (* ================================================================== *)
 (** * 1. refused up front = refused whatever the random source *)
@@ -157,12 +162,66 @@ Proof. exact (pv_veto_invalid_tiebreak cand ceqb). Qed.
 (* ================================================================== *)
 (** * 4. non-integer weights and the random transfer *)
 
-(* on a valid (untied, positive-weight) profile STV never raises TypeError, except that the random
-   transfer may; with integral weights it never does, under any script of draws *)
+(* 4a. THE UP-FRONT CHECK.  With the random transfer, EVERY profile that passes the ranking /
+   no-tie validation and has a non-integral weight is refused with TypeError by the constructor,
+   whatever the seat count (even out of range), the quota name (even unknown), the other options
+   and the script of draws; hence by the run and by the rule *)
+Theorem c20_random_nonintegral_type_error : forall cfg (p : profile),
+  stv_validate p = inl tt -> s_transfer cfg = TRandom ->
+  (exists b, In b (ballots p) /\ is_integral (wt b) = false) ->
+  stv_init cfg p = inr EType /\ upfront (RSTV cfg) p = inr EType /\
+  forall s : mstate, run_stv cfg p s = inr EType /\ run_rule (RSTV cfg) p s = inr EType.
+Proof. exact (random_nonintegral_type_error cand ceqb). Qed.
+
+(* the check exactly: TypeError iff some weight is not integral; the constructor goes on to the
+   seat-count and quota checks, as with any other transfer, iff all weights are integral *)
+Theorem c20_random_upfront_iff : forall cfg (p : profile),
+  stv_validate p = inl tt -> s_transfer cfg = TRandom ->
+  ((exists b, In b (ballots p) /\ is_integral (wt b) = false) <-> stv_init cfg p = inr EType) /\
+  ((forall b, In b (ballots p) -> is_integral (wt b) = true) <->
+   stv_init cfg p =
+   if ((s_m cfg <=? 0) || (Z.of_nat (length (cands p)) <? s_m cfg))%Z then inr EValue
+   else threshold (s_quota cfg) (s_m cfg) (total_wt cand (ballots p))).
+Proof. exact (random_upfront_iff cand). Qed.
+
+(* hence success of the constructor, or of a run, with the random transfer IMPLIES integral
+   weights (no hypothesis on the profile) *)
+Theorem c20_random_success_integral : forall cfg (p : profile),
+  s_transfer cfg = TRandom ->
+  (forall t, stv_init cfg p = inl t -> integral_weights p) /\
+  (forall (s s' : mstate) sts, run_stv cfg p s = inl (sts, s') -> integral_weights p).
+Proof. exact (random_success_integral cand ceqb). Qed.
+
+(* Alaska: the STV stage is constructed on the profile p1 left by the first stage, and the same
+   check refuses it *)
+Theorem c20_alaska_stage_random_nonintegral :
+  forall m1 m2 cfg (p : profile) (s sa : mstate) s0 p1 s1,
+  alaska_args m1 m2 = inl tt -> ranking_validate p = inl tt -> round0 SKFpv p = inl s0 ->
+  plurality_stage m1 (s_tiebreak cfg) p s0 s = inl ((p1, s1), sa) ->
+  stv_validate p1 = inl tt -> s_transfer cfg = TRandom ->
+  (exists b, In b (ballots p1) /\ is_integral (wt b) = false) ->
+  run_alaska m1 m2 cfg p s = inr EType.
+Proof. exact (alaska_stage_random_nonintegral cand ceqb). Qed.
+
+(* 4b. run level, valid (untied, positive-weight) profile: STV raises TypeError iff the transfer is
+   the random one and some weight is not integral ... *)
+Theorem c20_stv_type_error_iff : forall cfg (p : profile) (s : mstate),
+  wf_stv0 p -> (s_transfer cfg = TRandom -> script_ok s) ->
+  (run_stv cfg p s = inr EType <-> s_transfer cfg = TRandom /\ ~ integral_weights p).
+Proof. exact (run_stv_type_error_iff cand ceqb ceqb_spec). Qed.
+
+(* ... in particular never with integral weights, under any script of draws ... *)
 Theorem c20_stv_no_type_error : forall cfg (p : profile) (s : mstate),
   wf_stv0 p -> (s_transfer cfg = TRandom -> script_ok s /\ integral_weights p) ->
   run_stv cfg p s <> inr EType.
 Proof. exact (run_stv_no_type_error cand ceqb ceqb_spec). Qed.
+
+(* ... and never from a round: once the constructor has succeeded the lazy check of the transfer
+   function (4c) cannot fire *)
+Theorem c20_stv_rounds_no_type_error : forall cfg (p : profile) (s : mstate) t,
+  wf_stv0 p -> (s_transfer cfg = TRandom -> script_ok s) ->
+  stv_init cfg p = inl t -> run_stv cfg p s <> inr EType.
+Proof. exact (run_stv_rounds_no_type_error cand ceqb ceqb_spec). Qed.
 
 (* integrality is an invariant of the count: a round of the random transfer maps a profile with
    integral weights to a profile with integral weights *)
@@ -171,9 +230,12 @@ Theorem c20_random_round_integral : forall cfg t p0 (p : profile) prev,
   stv_step cfg t p0 n p prev s = inl ((np, st), s') -> integral_weights np.
 Proof. exact (step_integral cand ceqb ceqb_spec). Qed.
 
-(* the check is lazy.  A round raises TypeError only with the random transfer, only when some
-   candidate w reaches the threshold, and only because a ballot of w's pile has a non-integral
-   weight (so an elimination round never does) ... *)
+(* 4c. THE LAZY CHECK, at the level of one round (stv_step called on an arbitrary situation
+   satisfying step_ctx; by 4b no run of run_stv reaches these cases any more, they describe the
+   transfer function itself, e.g. as called on the example ex_second below).  A round raises
+   TypeError only with the random transfer, only when some candidate w reaches the threshold, and
+   only because a ballot of w's pile has a non-integral weight (so an elimination round never
+   does) ... *)
 Theorem c20_round_type_error : forall cfg t p0 (p : profile) prev,
   step_ctx p0 p prev -> forall n (s : mstate), (s_transfer cfg = TRandom -> script_ok s) ->
   stv_step cfg t p0 n p prev s = inr EType ->
@@ -202,14 +264,10 @@ Theorem c20_first_transfer_type_error : forall cfg t p0 (p : profile) prev,
   stv_step cfg t p0 n p prev s = inr EType.
 Proof. exact (step_first_transfer_type_error cand ceqb ceqb_spec). Qed.
 
-(* in particular in the first round of a run *)
-Theorem c20_run_first_transfer_type_error : forall cfg (p : profile) (s : mstate) t s0 w rest,
-  wf_stv0 p -> s_transfer cfg = TRandom ->
-  stv_init cfg p = inl t -> initial_state cand ceqb p = inl s0 ->
-  remaining s0 = [w] :: rest -> t <= tally w (ballots p) ->
-  (exists b, In b (ballots p) /\ first_is cand ceqb w b = true /\ is_integral (wt b) = false) ->
-  run_stv cfg p s = inr EType.
-Proof. exact (run_stv_first_transfer_type_error cand ceqb ceqb_spec). Qed.
+(* (the former run-level corollary c20_run_first_transfer_type_error assumed stv_init cfg p = inl t
+   together with the random transfer and a non-integral weight: since the up-front check these
+   hypotheses exclude each other; it is superseded by c20_random_nonintegral_type_error, which has
+   the same conclusion without the hypotheses on the threshold and on the top candidate) *)
 
 End C20.
 
@@ -224,12 +282,17 @@ Print Assumptions c20_stv_round_invalid_tiebreak.
 Print Assumptions c20_stv_round_tiebreak_unused.
 Print Assumptions c20_toptwo_alaska_invalid_tiebreak.
 Print Assumptions c20_pv_veto_invalid_tiebreak.
+Print Assumptions c20_random_nonintegral_type_error.
+Print Assumptions c20_random_upfront_iff.
+Print Assumptions c20_random_success_integral.
+Print Assumptions c20_alaska_stage_random_nonintegral.
+Print Assumptions c20_stv_type_error_iff.
 Print Assumptions c20_stv_no_type_error.
+Print Assumptions c20_stv_rounds_no_type_error.
 Print Assumptions c20_random_round_integral.
 Print Assumptions c20_round_type_error.
 Print Assumptions c20_random_elected_pile_integral.
 Print Assumptions c20_first_transfer_type_error.
-Print Assumptions c20_run_first_transfer_type_error.
 
 (* ------------------------------------------------------------------ *)
 (* Non-vacuity (cand := positive). *)
@@ -304,49 +367,69 @@ Proof.
   split; [vm_compute; reflexivity|]. eexists; vm_compute; reflexivity.
 Qed.
 
-(* 4. the random transfer is NOT refused up front for a non-integer weight.
-   (i) candidate 1 (weight 4) reaches the Droop quota 3 at once; the ballot of weight 3/2 belongs to
-       candidate 2's pile, which is never transferred: the run SUCCEEDS;
-   (ii) the non-integral ballot is in the winner's pile: TypeError in the first round;
-   (iii) nobody reaches the quota in round 1 (an elimination: no check), candidate 2 does in round 2
-       with the ballot of weight 5/2 in its pile: TypeError only then *)
+(* 4. the random transfer IS refused up front for a non-integer weight.
+   (i) ex_lazy: candidate 1 (weight 4) reaches the Droop quota 3 at once; the ballot of weight 3/2
+       belongs to candidate 2's pile, which is never transferred.  Before the fix the run succeeded
+       (the check was lazy); now it is a TypeError from every script, even for a seat count out of
+       range and an unknown quota name, while the ROUND itself (stv_step from the initial state,
+       threshold 3) still succeeds: the refusal is the constructor's;
+   (ii) ex_first: the non-integral ballot is in the winner's pile: TypeError (now up front);
+   (iii) ex_second: TypeError up front.  At the level of rounds (threshold 3, as the fractional
+       configuration computes it) the lazy check is still what the transfer function does: nobody
+       reaches the quota in round 1 (an elimination: no check), candidate 2 does in round 2 with
+       the ballot of weight 5/2 in its pile: stv_step raises TypeError only then *)
 Definition ex_lazy : Core.profile positive := mkProfile [B [1;2] 4; B [2;1] (3#2)] [1;2].
 Definition ex_first : Core.profile positive := mkProfile [B [1;2] (7#2); B [2;1] 1] [1;2].
 Definition ex_second : Core.profile positive :=
   mkProfile [B [1;3] 2; B [2;3] (5#2); B [3;2] 1] [1;2;3].
+Definition fcfg (m : Z) (simul : bool) : stv_cfg := mkStv m QDroop simul TFractional None.
 
-Example ex_random_transfer_lazy :
+Example ex_random_transfer_upfront :
   wf_stv0 positive ex_lazy /\ ~ integral_weights positive ex_lazy /\
-  (exists sts s', run_stv positive Pos.eqb (rcfg 1 true) ex_lazy (mkM [DRanks [[[2]]]] []) = inl (sts, s') /\
-     length sts = 2%nat) /\
+  (forall cfg s, s_transfer cfg = TRandom -> run_stv positive Pos.eqb cfg ex_lazy s = inr EType) /\
+  run_stv positive Pos.eqb (mkStv 7 QBad true TRandom None) ex_lazy st0 = inr EType /\
+  run_stv positive Pos.eqb (mkStv 7 QBad true TFractional None) ex_lazy st0 = inr EValue /\
+  (exists sts s', run_stv positive Pos.eqb (fcfg 1 true) ex_lazy st0 = inl (sts, s')) /\
+  (exists s0 np st s', STV.stv_init positive (fcfg 1 true) ex_lazy = inl 3%Q /\
+     initial_state positive Pos.eqb ex_lazy = inl s0 /\
+     stv_step positive Pos.eqb (rcfg 1 true) 3 ex_lazy 0 ex_lazy s0 (mkM [DRanks [[[2]]]] [])
+       = inl ((np, st), s') /\ elected st = [[1]]) /\
   wf_stv0 positive ex_first /\
   (forall s, run_stv positive Pos.eqb (rcfg 1 true) ex_first s = inr EType) /\
   wf_stv0 positive ex_second /\
-  run_stv positive Pos.eqb (rcfg 1 true) ex_second st0 = inr EType /\
-  (exists t s0 np st, STV.stv_init positive (rcfg 1 true) ex_second = inl t /\
+  (forall s, run_stv positive Pos.eqb (rcfg 1 true) ex_second s = inr EType) /\
+  (exists s0 np st, STV.stv_init positive (fcfg 1 true) ex_second = inl 3%Q /\
      initial_state positive Pos.eqb ex_second = inl s0 /\
-     stv_step positive Pos.eqb (rcfg 1 true) t ex_second 0 ex_second s0 st0 = inl ((np, st), st0) /\
+     stv_step positive Pos.eqb (rcfg 1 true) 3 ex_second 0 ex_second s0 st0 = inl ((np, st), st0) /\
      eliminated st = [[3]] /\
-     stv_step positive Pos.eqb (rcfg 1 true) t ex_second 0 np st st0 = inr EType).
+     stv_step positive Pos.eqb (rcfg 1 true) 3 ex_second 0 np st st0 = inr EType).
 Proof.
+  assert (Hup : forall (p : Core.profile positive) cfg s,
+            STV.stv_validate positive p = inl tt -> s_transfer cfg = TRandom ->
+            (exists b, In b (ballots p) /\ is_integral (wt b) = false) ->
+            run_stv positive Pos.eqb cfg p s = inr EType).
+  { intros p cfg s Hv Hk Hb.
+    exact (proj1 (proj2 (proj2 (c20_random_nonintegral_type_error positive Pos.eqb cfg p Hv Hk Hb)) s)). }
   split; [exact (proj1 (wf_stv_profile_b_ok positive Pos.eqb Pos.eqb_spec ex_lazy eq_refl))|].
   split.
   { intros H. inversion H as [|x l _ H2]; subst. inversion H2 as [|y l' Hy _]; subst. vm_compute in Hy. discriminate. }
-  split; [do 2 eexists; split; [vm_compute; reflexivity|reflexivity]|].
+  split.
+  { intros cfg s Hk. apply Hup; [vm_compute; reflexivity|exact Hk|].
+    eexists. split; [right; left; reflexivity|vm_compute; reflexivity]. }
+  split; [vm_compute; reflexivity|]. split; [vm_compute; reflexivity|].
+  split; [do 2 eexists; vm_compute; reflexivity|].
+  split.
+  { do 4 eexists. split; [vm_compute; reflexivity|]. split; [vm_compute; reflexivity|].
+    split; [vm_compute; reflexivity|reflexivity]. }
   split; [exact (proj1 (wf_stv_profile_b_ok positive Pos.eqb Pos.eqb_spec ex_first eq_refl))|].
   split.
-  { intros s.
-    eapply (c20_run_first_transfer_type_error positive Pos.eqb Pos.eqb_spec (rcfg 1 true) ex_first s).
-    - exact (proj1 (wf_stv_profile_b_ok positive Pos.eqb Pos.eqb_spec ex_first eq_refl)).
-    - reflexivity.
-    - vm_compute. reflexivity.
-    - vm_compute. reflexivity.
-    - vm_compute. reflexivity.
-    - vm_compute. discriminate.
-    - eexists. split; [left; reflexivity|]. split; vm_compute; reflexivity. }
+  { intros s. apply Hup; [vm_compute; reflexivity|reflexivity|].
+    eexists. split; [left; reflexivity|vm_compute; reflexivity]. }
   split; [exact (proj1 (wf_stv_profile_b_ok positive Pos.eqb Pos.eqb_spec ex_second eq_refl))|].
-  split; [vm_compute; reflexivity|].
-  do 4 eexists. split; [vm_compute; reflexivity|]. split; [vm_compute; reflexivity|].
+  split.
+  { intros s. apply Hup; [vm_compute; reflexivity|reflexivity|].
+    eexists. split; [right; left; reflexivity|vm_compute; reflexivity]. }
+  do 3 eexists. split; [vm_compute; reflexivity|]. split; [vm_compute; reflexivity|].
   split; [vm_compute; reflexivity|]. split; [reflexivity|]. vm_compute. reflexivity.
 Qed.
 
